@@ -12,9 +12,10 @@ ID = 'C16'
 LEVEL = 'exploration'
 TECHNIQUE = 'bounded-exhaustive enumeration of a log-template grammar x frame states x collect modes on the real handler, against an independent template renderer'
 RULE = ('templates = all sequences of <= 3 segments over {literal "a b", "{{", "}}", {field}} with field in {name, obj.attr, lst[0], d[\'k\'], '
-        's.upper(), len(lst), missing, 1/0, bad (raising __str__)}; x 3 frame states x {no_collect, collect} ; two hits, fire_count=1; '
+        's.upper(), len(lst), missing, 1/0, bad (raising __str__)}, and all of <= 2 segments additionally over fields containing : ! or braces '
+        '(slice, string arguments, !=, lambda, dict display, generator expression over locals); x 3 frame states x {no_collect, collect} ; two hits, fire_count=1; '
         'non-trivial = template has >= 1 field and (a literal/escape or a failing field)')
-ASSUMPTIONS = ['fields with ! or : (format conversions/specs) are outside the listed grammar',
+ASSUMPTIONS = ['a field is an expression: everything between an unescaped { and its matching } (python format conversions/specs are not part of the statement)',
                'the text substituted for a value whose __str__ raises is a don\'t-care (the rest of the message is checked)']
 
 PROGRAM = '''
@@ -32,7 +33,11 @@ def target(name, obj, lst, d, s, bad, times):
 LINE = PROGRAM.split('\n').index('        mark = 1') + 1
 
 FIELDS = ['name', 'obj.attr', 'lst[0]', "d['k']", 's.upper()', 'len(lst)', 'missing', '1/0', 'bad']
-SEGS = ['a b', '{{', '}}'] + ['{%s}' % f for f in FIELDS]
+# index / call expressions that contain ':' '!' or braces, and nested scopes over the frame's locals (templates of <= 2 segments)
+FIELDS2 = ['lst[0:1]', "d.get('k:v', 'none')", "s.split('!')", "str(name != 'bob')", '(lambda: name)()', " {'k': 1}['k'] ", 'sum(1 for i in lst if i != name)',
+           "'a}b'.upper()", "d['k'] if name else '{'"]
+SEGS = ['a b', '{{', '}}'] + ['{%s}' % f for f in FIELDS] + ['{%s}' % f for f in FIELDS2]
+NBASE = 3 + len(FIELDS)
 
 
 def frames(ns):
@@ -50,7 +55,7 @@ def bounds(tier):
 def cases(tier, seed):
     out = []
     for n in (1, 2, 3):
-        for segs in itertools.product(range(len(SEGS)), repeat=n):
+        for segs in itertools.product(range(len(SEGS) if n < 3 else NBASE), repeat=n):
             out.append({'segs': list(segs)})
     # chunk to keep messages small
     return [{'k': 'chunk', 'items': out[i:i + 40]} for i in range(0, len(out), 40)]
@@ -79,8 +84,10 @@ def render(segs, frame_locals, frame_globals):
         elif seg.startswith('{'):
             nfields += 1
             expr = seg[1:-1]
+            names = dict(frame_globals)
+            names.update(frame_locals)
             try:
-                v = eval(expr, frame_globals, frame_locals)
+                v = eval(expr, names)      # every name visible at the line is visible to the whole expression (nested scopes too)
             except BaseException as e:
                 parts.append(('err', str(e)))
                 continue
